@@ -762,3 +762,95 @@ def m_option_as_deref(ex, m, args, tys, st, fn):
     if o.tag.val == 0:
         return [(st, Enum(0, {}, "Option"))]
     return [(st, Enum(1, {1: [o.pay[1][0]]}, "Option"))]
+
+
+# ---- slice iterators with a concrete length: Agg([ref to the slice, next index])
+@model(r"^core::slice::<impl \[.*\]>::iter$")
+def m_slice_iter(ex, m, args, tys, st, fn):
+    return [(st, Agg([args[0], I(0)]))]
+
+
+@model(r"^<(?:std|core)::slice::Iter<'_, .*> as (?:std::iter::)?Iterator>::next$")
+def m_slice_iter_next(ex, m, args, tys, st, fn):
+    it = ex.deref(args[0])
+    r, i = it.fields
+    v = ex.deref(r)
+    if i.val >= len(v.fields):
+        return [(st, Enum(0, {}, "Option"))]
+    ex.write_ref(args[0], Agg([r, I(i.val + 1)]))
+    return [(st, Enum(1, {1: [Ref(r.cell, tuple(r.path) + (int(i.val),))]}, "Option"))]
+
+
+@model(r"^<(?:std|core)::slice::Iter<'_, .*> as (?:std::iter::)?Iterator>::enumerate$")
+def m_slice_iter_enumerate(ex, m, args, tys, st, fn):
+    return [(st, Agg([args[0], I(0)]))]  # Enumerate { iter, count }
+
+
+@model(r"^<(?:std::iter::)?Enumerate<(?:std|core)::slice::Iter<'_, .*>> as (?:std::iter::)?IntoIterator>::into_iter$")
+def m_enumerate_into_iter(ex, m, args, tys, st, fn):
+    return [(st, args[0])]
+
+
+@model(r"^<(?:std::iter::)?Enumerate<(?:std|core)::slice::Iter<'_, .*>> as (?:std::iter::)?Iterator>::next$")
+def m_enumerate_next(ex, m, args, tys, st, fn):
+    en = ex.deref(args[0])
+    inner, count = en.fields
+    r, i = inner.fields
+    v = ex.deref(r)
+    if i.val >= len(v.fields):
+        return [(st, Enum(0, {}, "Option"))]
+    ex.write_ref(args[0], Agg([Agg([r, I(i.val + 1)]), I(count.val + 1)]))
+    return [(st, Enum(1, {1: [Agg([count, Ref(r.cell, tuple(r.path) + (int(i.val),))])]}, "Option"))]
+
+
+@model(r"^Vec::<.*>::extend_from_slice$")
+def m_vec_extend_from_slice(ex, m, args, tys, st, fn):
+    import copy as _copy
+    v = ex.deref(args[0])
+    s = ex.deref(args[1])
+    ex.write_ref(args[0], Agg(list(v.fields) + [_copy.deepcopy(x) for x in s.fields]))
+    return [(st, Agg([]))]
+
+
+@model(r"^<\[.*\] as (?:std::ops::)?Index<(?:std::ops::)?Range<usize>>>::index$")
+def m_slice_index_range(ex, m, args, tys, st, fn):
+    from .execmir import Cell
+    v = ex.deref(args[0])
+    lo, hi = args[1].fields
+    if not (lo.is_const and hi.is_const):
+        raise Unsupported("slice[a..b] with symbolic bounds")
+    if lo.val > hi.val or hi.val > len(v.fields):
+        ex.obligations.append({"kind": "panic", "msg": "slice index range out of bounds", "pc": list(st.pc), "fn": fn.path})
+        return []
+    return [(st, Ref(Cell(Agg(list(v.fields[lo.val:hi.val])))))]
+
+
+@model(r"^Option::<&.*>::cloned$")
+def m_option_cloned(ex, m, args, tys, st, fn):
+    import copy as _copy
+    o = args[0]
+    if not o.tag.is_const:
+        raise Unsupported("Option::cloned with symbolic tag")
+    if o.tag.val == 0:
+        return [(st, Enum(0, {}, "Option"))]
+    return [(st, Enum(1, {1: [_copy.deepcopy(ex.deref(o.pay[1][0]))]}, "Option"))]
+
+
+@model(r"^Option::<.*>::take$")
+def m_option_take(ex, m, args, tys, st, fn):
+    old = ex.deref(args[0])
+    ex.write_ref(args[0], Enum(0, {}, "Option"))
+    return [(st, old)]
+
+
+@model(r"^<(.+) as (?:std::convert::)?Into<(.+)>>::into$")
+def m_into_via_from(ex, m, args, tys, st, fn):
+    src, dst = m.group(1), m.group(2)
+    cands = [f for f in ex.prog.find_fn("from", self_ty=dst, trait="From") if f.params and _norm_last(f.params[0][1]) == _norm_last(src)]
+    if not cands:
+        return NotImplemented
+    return ex.exec_fn(cands[0], args, st, 1)
+
+
+def _norm_last(t):
+    return re.sub(r"<.*$", "", t.strip()).split("::")[-1]
